@@ -1,5 +1,6 @@
 import TsrunVerif.Driver.Path
 import TsrunVerif.Driver.Heap
+import TsrunVerif.Driver.Num
 
 /-! `tvdriver <model>`: line protocol, one observation line per case line. -/
 
@@ -15,5 +16,6 @@ def main (args : List String) : IO UInt32 := do
   let stdout ← IO.getStdout
   match args with
   | ["path"] => loop stdin stdout TsrunVerif.Driver.pathLine; return 0
+  | ["num"] => loop stdin stdout TsrunVerif.Driver.numLine; return 0
   | ["heap"] => loop stdin stdout TsrunVerif.Driver.heapLine; return 0
   | _ => IO.eprintln "usage: tvdriver <model>"; return 2
